@@ -157,12 +157,15 @@ EvalExpr(stmts, F, e, input) ==
     [] e.k = "call" /\ e.f = "Combine" ->
          IF Len(e.args) = 0 THEN Nil ELSE ConcatArgs(stmts, F, e.args, input, 1, <<>>)
     [] e.k = "call" /\ e.f = "NodesWithTagPath" ->    \* tag-path lookup: a fact of the node(s), keyed by the path
-         IF input.t \in {"nil", "nilptr", "nilslice"} THEN List(<<>>)
+         \* the nodes found below each input node, concatenated; the Go API (and the engine) give a nil list when there are none
+         IF input.t \in {"nil", "nilptr", "nilslice"} THEN [t |-> "nilslice"]
          ELSE LET xs == AsList(input)
                   RECURSIVE Cat(_, _) Cat(k, acc) ==
-                    IF k > Len(xs) THEN List(acc)
+                    IF k > Len(xs) THEN (IF acc = <<>> THEN [t |-> "nilslice"] ELSE List(acc))
+                    ELSE IF xs[k].t \in {"nil", "nilptr"} THEN Cat(k + 1, acc)      \* "if the node is nil the result will also be nil"
                     ELSE IF xs[k].t # "obj" THEN Err
-                    ELSE LET r == FactOf(F, xs[k].id, e.path) IN IF r.t # "list" THEN Err ELSE Cat(k + 1, acc \o r.v)
+                    ELSE LET r == FactOf(F, xs[k].id, e.path) IN
+                         IF r.t = "nilslice" THEN Cat(k + 1, acc) ELSE IF r.t # "list" THEN Err ELSE Cat(k + 1, acc \o r.v)
               IN Cat(1, <<>>)
     [] e.k = "obj" -> IF input.t = "list" THEN MapOver(stmts, F, e, input.v, 1, <<>>) ELSE ObjLoop(stmts, F, e, input, 1, <<>>)
     [] e.k = "bin" -> IF input.t = "list" THEN MapOver(stmts, F, e, input.v, 1, <<>>)
